@@ -32,7 +32,8 @@ def nontrivial(h):
 def run(ctx):
     quick = ctx.quick
     consts = {"Impls": {"plan_mutator", "msg_mutator"}, "Procs": {"identity"}, "Variants": {"FF"},
-              "MaxOpsId": 9 if quick else 13, "MaxOpsIns": 0, "MaxGens": 0, "MaxPost": 1 if quick else 2, "KeepHist": True}
+              "MaxOpsId": 8 if quick else 13, "MaxOpsIns": 0, "MaxGens": 0, "MaxPost": 1 if quick else 2, "KeepHist": True,
+              "DumpVariants": {"FF"}}
     ctx.rule = ("cases = every maximal behaviour of PlanMutator.tla with the identity processor (all driver scripts x all "
                 "parent reactions up to MaxOpsId driver operations, both implementations), each replayed on the real function "
                 "and on the bare generator; distinct by the full event sequence; non-trivial = contains a throw, a close or a "
@@ -78,7 +79,7 @@ def run(ctx):
     # 3. code -> spec
     rng = random.Random(ctx.seed)
     traces, meta = [], []
-    n = 200 if quick else 4000
+    n = 160 if quick else 4000
     for i in range(n):
         impl = "plan_mutator" if i % 2 == 0 else "msg_mutator"
         with G.quiet_gc():
